@@ -827,7 +827,8 @@ func checkWithStack(c Case) error {
 	base := errors.New("base")
 	coded := &codeErr{c.B}
 	var e error
-	switch c.A % 6 {
+	kind := c.A % 8
+	switch kind {
 	case 0:
 		e = base
 	case 1:
@@ -838,8 +839,12 @@ func checkWithStack(c Case) error {
 		e = xerrors.WithStack(base) // already wrapped
 	case 4:
 		e = fmt.Errorf("outer: %w", xerrors.WithStack(fmt.Errorf("mid: %w", coded))) // stack deeper in the chain
-	default:
+	case 5:
 		e = coded
+	case 6:
+		e = partsErr{[]string{"a", "b"}} // an error of a dynamic type that == cannot compare
+	default:
+		e = fmt.Errorf("wrapped: %w", partsErr{[]string{"c"}})
 	}
 	w := xerrors.WithStack(e)
 	if c.B%7 == 0 { // a call stack deeper than the 64-frame buffer WithStack fills at a time
@@ -851,7 +856,7 @@ func checkWithStack(c Case) error {
 			return deep(n - 1)
 		}
 		w = deep(150)
-		if c.A%6 != 3 && c.A%6 != 4 {
+		if kind != 3 && kind != 4 {
 			// the rendered stack is the real one: going 140 calls deeper adds exactly 140 frames
 			frames := func(e error) int { return strings.Count(e.Error(), "(...)\n") }
 			shallow, deeper, deepest := frames(deep(10)), frames(w), frames(deep(215))
@@ -867,14 +872,32 @@ func checkWithStack(c Case) error {
 	if errors.Is(w, base) != hasBase {
 		return viol(c, "errors.Is does not see through WithStack")
 	}
+	// transparent to Is for every kind of target - sentinels that are and are not in the chain, values of
+	// uncomparable types, other WithStack results (over the same and over other inner types): with and
+	// without the stack the answer is the same, and asking never panics
+	for ti, target := range []error{base, coded, errors.New("other"), &codeErr{c.B}, partsErr{[]string{"a", "b"}}, xerrors.WithStack(partsErr{[]string{"a", "b"}}),
+		xerrors.WithStack(base), xerrors.WithStack(errors.New("other")), fmt.Errorf("t: %w", base), w} {
+		var plain, stacked bool
+		pp, pv := vk.Catch(func() { plain = errors.Is(e, target) })
+		sp, sv := vk.Catch(func() { stacked = errors.Is(w, target) })
+		if pp {
+			return viol(c, "errors.Is(chain %d, target %d) panicked without any WithStack involved: %v", kind, ti, pv)
+		}
+		if sp {
+			return viol(c, "errors.Is(WithStack(chain %d), target %d) panicked: %v (without the stack it answers %v)", kind, ti, sv, plain)
+		}
+		if ti < 9 && kind != 3 && kind != 4 && stacked != plain {
+			return viol(c, "errors.Is(WithStack(chain %d), target %d) = %v, without the stack %v", kind, ti, stacked, plain)
+		}
+	}
 	var ce *codeErr
 	var ce2 *codeErr
 	if errors.As(e, &ce) != errors.As(w, &ce2) || (ce != nil && ce != ce2) {
 		return viol(c, "errors.As does not see through WithStack")
 	}
 	// (an error that is itself a stack wrapper is not comparable, so errors.Is can never match it as a target)
-	if c.A%6 != 3 && !errors.Is(w, e) {
-		return viol(c, "errors.Is(WithStack(e), e) is false")
+	if kind != 3 && errors.Is(w, e) != errors.Is(e, e) { // (false for both when e's type cannot be compared)
+		return viol(c, "errors.Is(WithStack(e), e) = %v, errors.Is(e, e) = %v", errors.Is(w, e), errors.Is(e, e))
 	}
 	if msg, inner := w.Error(), e.Error(); len(msg) < len(inner) || msg[:len(inner)] != inner {
 		return viol(c, "message %q does not start with the inner message %q", msg, inner)
@@ -884,13 +907,18 @@ func checkWithStack(c Case) error {
 	if !sameErr(w2, w) {
 		return viol(c, "WithStack(WithStack(e)) wrapped a second time: %d bytes vs %d bytes of message", len(w2.Error()), len(w.Error()))
 	}
-	if c.A%6 == 3 || c.A%6 == 4 {
+	if kind == 3 || kind == 4 {
 		if !sameErr(w, e) {
 			return viol(c, "WithStack of an error that already has a stack attached did not return it unchanged")
 		}
 	}
 	return nil
 }
+
+// partsErr is an error whose dynamic type == cannot compare.
+type partsErr struct{ parts []string }
+
+func (e partsErr) Error() string { return strings.Join(e.parts, "+") }
 
 func sameErr(a, b error) (same bool) {
 	defer func() {
